@@ -1,5 +1,6 @@
 import A816.Model.Program
 import A816.Props.C18
+import A816.Proofs.ScanTotal
 /-!
 # C15 — Every input terminates
 
@@ -7,6 +8,12 @@ Every Python `while` loop of the scanner is modelled with a fuel computed from t
 `Err.outOfFuel` means *the Python loop would not terminate*.  Termination is the family of theorems
 "`outOfFuel` is unreachable".  Proved here, for every input and every scanner state:
 
+* **`scan_terminates`** (whole scanner): for every configuration, both initial states and every input text,
+  `Scanner.scan` returns tokens or raises a `ScannerException` — `outOfFuel` is unreachable.  It is
+  assembled from a post-condition proved for every scanner primitive and every state function
+  (`Proofs/ScanTotal.lean`): the input is unchanged, `pos` never decreases, no loop runs out of its fuel,
+  and a state call that emitted a token or returned normally with a different `pos` strictly advanced
+  `pos` (so the outer loop runs at most `len(input)` times: `scan_state_calls_le`).
 * `acceptRun_terminates`: `accept_run(candidates, negate)` terminates whenever the loop does not accept
   at end of input — which is the case for every call site of the code (`acceptRun_sites`), including
   the negated run `"\n\0"` that `lex_opcode` and the error handler use (the `"\0"` sentinel matters).
@@ -17,96 +24,44 @@ Every Python `while` loop of the scanner is modelled with a fuel computed from t
 * the table encoder (`C18.toBytes_fuel`), the IPS reader and writer (fuel = length) terminate; code
   generation is structurally recursive on the nesting budget, loops run their evaluated count.
 
-Parser fuel sufficiency (`2·|tokens|`) is not yet a theorem; it is exercised by the streams.
+The basic lemmas live in `Proofs/ScanBasic.lean` (namespace `ScanB`) and are restated here under their
+names.  Parser fuel sufficiency is not yet a theorem; it is exercised by the streams.
 -/
 namespace A816.C15
-open A816 Scan
+open A816 Scan ScanB
 
-@[simp] theorem handleLine_input (s : Scan) : s.handleLine.input = s.input := by
-  unfold handleLine; split <;> rfl
-@[simp] theorem handleLine_pos (s : Scan) : s.handleLine.pos = s.pos := by
-  unfold handleLine; split <;> rfl
+theorem next_pos_lt (s : Scan) (h : s.pos < s.input.size) : (s.next).1.pos = s.pos + 1 :=
+  ScanB.next_pos_lt s h
 
-@[simp] theorem next_input (s : Scan) : (s.next).1.input = s.input := by
-  unfold Scan.next
-  split
-  · simp only; split <;> simp
-  · rfl
+theorem next_pos_ge (s : Scan) (h : ¬ s.pos < s.input.size) : (s.next).1 = s ∧ (s.next).2 = none :=
+  ScanB.next_pos_ge s h
 
-theorem next_pos_lt (s : Scan) (h : s.pos < s.input.size) : (s.next).1.pos = s.pos + 1 := by
-  unfold Scan.next
-  simp only [h, ↓reduceDIte]
-  split <;> simp
+theorem next_some_iff (s : Scan) : (s.next).2 = none ↔ ¬ s.pos < s.input.size :=
+  ScanB.next_some_iff s
 
-theorem next_pos_ge (s : Scan) (h : ¬ s.pos < s.input.size) : (s.next).1 = s ∧ (s.next).2 = none := by
-  unfold Scan.next; simp [h]
-
-theorem next_some_iff (s : Scan) : (s.next).2 = none ↔ ¬ s.pos < s.input.size := by
-  unfold Scan.next
-  by_cases h : s.pos < s.input.size <;> simp [h]
-
-theorem peek_eof (s : Scan) (h : ¬ s.pos < s.input.size) : s.peek = '\x00' := by
-  unfold Scan.peek
-  simp only [Nat.add_zero]
-  rw [Array.getD_eq_getD_getElem?, Array.getElem?_eq_none (by omega)]
-  rfl
-
-/-- does `accept(candidates, negate)` accept at end of input (where `peek()` is `"\0"`)? -/
-def eofAccepts (cands : List Char) (negate : Bool) : Bool :=
-  if negate then !(cands.contains '\x00') else cands.contains '\x00'
+theorem peek_eof (s : Scan) (h : ¬ s.pos < s.input.size) : s.peek = '\x00' :=
+  ScanB.peek_eof s h
 
 theorem accept_eof (s : Scan) (cands : List Char) (negate : Bool) (h : ¬ s.pos < s.input.size) :
-    (s.accept cands negate).2 = eofAccepts cands negate := by
-  unfold Scan.accept Scan.acceptTest eofAccepts
-  rw [peek_eof s h]
-  generalize cands.contains '\x00' = b
-  cases negate <;> cases b <;> rfl
+    (s.accept cands negate).2 = eofAccepts cands negate :=
+  ScanB.accept_eof s cands negate h
 
 theorem accept_step (s : Scan) (cands : List Char) (negate : Bool) :
     (s.accept cands negate).1.input = s.input ∧
     ((s.accept cands negate).2 = true → s.pos < s.input.size → (s.accept cands negate).1.pos = s.pos + 1) ∧
-    s.pos ≤ (s.accept cands negate).1.pos := by
-  unfold Scan.accept
-  split
-  · refine ⟨next_input s, fun _ h => next_pos_lt s h, ?_⟩
-    by_cases h : s.pos < s.input.size
-    · show s.pos ≤ (s.next).1.pos
-      rw [next_pos_lt s h]; omega
-    · show s.pos ≤ (s.next).1.pos
-      rw [(next_pos_ge s h).1]; omega
-  · exact ⟨rfl, fun h => by simp at h, Nat.le_refl _⟩
+    s.pos ≤ (s.accept cands negate).1.pos :=
+  ScanB.accept_step s cands negate
 
 /-- **`accept_run` terminates** when it does not accept at end of input: the fuel `len − pos + 1` suffices,
     the input is unchanged and `pos` only grows. -/
 theorem acceptRun_terminates (cands : List Char) (negate : Bool) (he : eofAccepts cands negate = false) :
     ∀ (n : Nat) (s : Scan), s.input.size - s.pos ≤ n →
-      ∃ s', acceptRunAux cands negate n s = some s' ∧ s'.input = s.input ∧ s.pos ≤ s'.pos := by
-  intro n
-  induction n with
-  | zero =>
-    intro s h
-    have hge : ¬ s.pos < s.input.size := by omega
-    unfold acceptRunAux
-    rw [accept_eof s cands negate hge, he]
-    exact ⟨s, by simp, rfl, Nat.le_refl _⟩
-  | succ n ih =>
-    intro s h
-    unfold acceptRunAux
-    by_cases hok : (s.accept cands negate).2 = true
-    · by_cases hlt : s.pos < s.input.size
-      · obtain ⟨h1, h2, _⟩ := accept_step s cands negate
-        have hp := h2 hok hlt
-        obtain ⟨s', e1, e2, e3⟩ := ih (s.accept cands negate).1 (by rw [h1, hp]; omega)
-        refine ⟨s', ?_, by rw [e2, h1], by omega⟩
-        simp only [hok, ↓reduceIte]; exact e1
-      · rw [accept_eof s cands negate hlt, he] at hok; cases hok
-    · simp only [hok]
-      exact ⟨s, by simp, rfl, Nat.le_refl _⟩
+      ∃ s', acceptRunAux cands negate n s = some s' ∧ s'.input = s.input ∧ s.pos ≤ s'.pos :=
+  ScanB.acceptRun_terminates cands negate he
 
 theorem acceptRun_ok (s : Scan) (cands : List Char) (negate : Bool) (he : eofAccepts cands negate = false) :
-    ∃ s', s.acceptRun cands negate = .ok s' ∧ s'.input = s.input ∧ s.pos ≤ s'.pos := by
-  obtain ⟨s', h1, h2, h3⟩ := acceptRun_terminates cands negate he (s.input.size - s.pos + 1) s (by omega)
-  exact ⟨s', by simp [Scan.acceptRun, h1], h2, h3⟩
+    ∃ s', s.acceptRun cands negate = .ok s' ∧ s'.input = s.input ∧ s.pos ≤ s'.pos :=
+  ScanB.acceptRun_ok s cands negate he
 
 /-- every `accept_run` call site of the code satisfies the condition (kernel-checked on the literal
     candidate strings of the model) -/
@@ -116,127 +71,77 @@ theorem acceptRun_sites :
     eofAccepts (chars "01") false = false ∧ eofAccepts (chars "012345678") false = false ∧
     eofAccepts (chars "0123456789ABCDEFabcdef") false = false ∧
     eofAccepts (chars "abcdefghijklmnopqrstuvwxyz_") false = false ∧
-    eofAccepts ['\n', '\x00'] true = false := by decide
-
-/-- the loop would *not* terminate for a negated run whose candidates lack the `"\0"` sentinel: the
-    model exhibits Python's non-termination (this is why `lex_opcode` spells the set `"\n\0"`) -/
-example : (({ input := "ab".toList.toArray } : Scan).acceptRun ['\n'] true).toOption = none := by decide
+    eofAccepts ['\n', '\x00'] true = false :=
+  ScanB.acceptRun_sites
 
 /-- `;` comment loop: stops at the newline or at end of input -/
 theorem lineComment_terminates : ∀ (n : Nat) (s : Scan), s.input.size - s.pos < n →
-    ∃ s', lineCommentLoop n s = .ok s' ∧ s'.input = s.input ∧ s.pos ≤ s'.pos := by
-  intro n
-  induction n with
-  | zero => intro s h; omega
-  | succ n ih =>
-    intro s h
-    unfold lineCommentLoop
-    by_cases hlt : s.pos < s.input.size
-    · have hp := next_pos_lt s hlt
-      by_cases hc : ((s.next).2 == some '\n' || (s.next).2 == none) = true
-      · rw [if_pos hc]
-        exact ⟨(s.next).1, rfl, next_input s, by omega⟩
-      · rw [if_neg hc]
-        obtain ⟨s', e1, e2, e3⟩ := ih (s.next).1 (by rw [next_input, hp]; omega)
-        exact ⟨s', e1, by rw [e2, next_input], by omega⟩
-    · obtain ⟨h1, h2⟩ := next_pos_ge s hlt
-      have hc : ((s.next).2 == some '\n' || (s.next).2 == none) = true := by rw [h2]; rfl
-      rw [if_pos hc, h1]
-      exact ⟨s, rfl, rfl, Nat.le_refl _⟩
+    ∃ s', lineCommentLoop n s = .ok s' ∧ s'.input = s.input ∧ s.pos ≤ s'.pos :=
+  ScanB.lineComment_terminates
 
 theorem acceptPrefix_step (s : Scan) (pre : List Char) :
-    (s.acceptPrefix pre).1.input = s.input ∧ s.pos ≤ (s.acceptPrefix pre).1.pos := by
-  unfold Scan.acceptPrefix
-  split
-  · exact ⟨rfl, by simp⟩
-  · exact ⟨rfl, Nat.le_refl _⟩
+    (s.acceptPrefix pre).1.input = s.input ∧ s.pos ≤ (s.acceptPrefix pre).1.pos :=
+  ScanB.acceptPrefix_step s pre
 
 /-- `/* … */` loop (F15 repair): every iteration consumes a character or ends; end of input raises -/
 theorem blockComment_terminates : ∀ (n : Nat) (s : Scan), s.input.size - s.pos < n →
     (∃ s', blockCommentLoop n s = .ok s' ∧ s'.input = s.input ∧ s.pos ≤ s'.pos) ∨
-    (∃ msg l c s', blockCommentLoop n s = .error (.scan msg l c, s')) := by
-  intro n
-  induction n with
-  | zero => intro s h; omega
-  | succ n ih =>
-    intro s h
-    unfold blockCommentLoop
-    by_cases ha : (s.acceptPrefix ['*', '/']).2 = true
-    · left
-      obtain ⟨h1, h2⟩ := acceptPrefix_step s ['*', '/']
-      rw [if_pos ha]
-      exact ⟨_, rfl, h1, h2⟩
-    · rw [if_neg ha]
-      by_cases hlt : s.pos < s.input.size
-      · have hp := next_pos_lt s hlt
-        have hnn : ¬ (((s.next).2 == none) = true) := by
-          have := (not_congr (next_some_iff s)).mpr (by simpa using hlt)
-          cases hx : (s.next).2 with
-          | none => exact absurd hx this
-          | some c => simp
-        rw [if_neg hnn]
-        rcases ih (s.next).1 (by rw [next_input, hp]; omega) with ⟨s', e1, e2, e3⟩ | ⟨msg, l, c, s', e⟩
-        · left; exact ⟨s', e1, by rw [e2, next_input], by omega⟩
-        · right; exact ⟨msg, l, c, s', e⟩
-      · right
-        obtain ⟨h1, h2⟩ := next_pos_ge s hlt
-        have hnn : (((s.next).2 == none) = true) := by rw [h2]; rfl
-        rw [if_pos hnn]
-        exact ⟨_, _, _, _, rfl⟩
+    (∃ msg l c s', blockCommentLoop n s = .error (.scan msg l c, s')) :=
+  ScanB.blockComment_terminates
 
 /-- quoted-string loop: every iteration consumes at least one character; newline / end of input raise -/
 theorem quoted_terminates (posErr : Err) : ∀ (n : Nat) (s : Scan) (c : Option Char),
     s.input.size - s.pos + 1 < n →
-    (∃ s', quotedLoop posErr n s c = .ok s') ∨ (∃ s', quotedLoop posErr n s c = .error (posErr, s')) := by
-  intro n
-  induction n with
-  | zero => intro s c h; omega
-  | succ n ih =>
-    intro s c h
-    unfold quotedLoop
-    by_cases h1 : (c == some '\'') = true
-    · left; rw [if_pos h1]; exact ⟨s, rfl⟩
-    · rw [if_neg h1]
-      by_cases h2 : (c == some '\n' || c == none) = true
-      · right; rw [if_pos h2]; exact ⟨s, rfl⟩
-      · rw [if_neg h2]
-        generalize hs1 : (if (c == some '\\' && s.peek == '\'') = true then (s.next).1 else s) = s1
-        have hs1i : s1.input.size = s.input.size ∧ s.pos ≤ s1.pos := by
-          rw [← hs1]; split
-          · refine ⟨by rw [next_input], ?_⟩
-            by_cases hlt : s.pos < s.input.size
-            · rw [next_pos_lt s hlt]; omega
-            · rw [(next_pos_ge s hlt).1]; omega
-          · exact ⟨rfl, Nat.le_refl _⟩
-        by_cases hlt : s1.pos < s1.input.size
-        · have hp1 := next_pos_lt s1 hlt
-          have hin : (s1.next).1.input.size = s1.input.size := by rw [next_input]
-          exact ih (s1.next).1 (s1.next).2 (by omega)
-        · obtain ⟨e1, e2⟩ := next_pos_ge s1 hlt
-          rw [e1, e2]
-          cases n with
-          | zero => omega
-          | succ m =>
-            right
-            unfold quotedLoop
-            have a1 : ¬ (((none : Option Char) == some '\'') = true) := by simp
-            have a2 : (((none : Option Char) == some '\n' || (none : Option Char) == none) = true) := by simp
-            rw [if_neg a1, if_pos a2]
-            exact ⟨s1, rfl⟩
+    (∃ s', quotedLoop posErr n s c = .ok s') ∨ (∃ s', quotedLoop posErr n s c = .error (posErr, s')) :=
+  ScanB.quoted_terminates posErr
 
 /-- **the outer loop is bounded**: an iteration of the loop of `Scanner.scan` whose state function returns
     either made progress (consumed input or emitted a token) and the loop continues with one iteration less,
     or (no-progress guard of the second F15 repair) raises — it is never repeated on the same state. -/
 theorem scanLoop_progress (cfg : ScanCfg) (st : ScanState) (n : Nat) (s s' : Scan) (h : s.pos < s.input.size)
     (hr : runState cfg st s = .ok s') (hprog : ¬ (s'.pos = s.pos ∧ s'.toks.size = s.toks.size)) :
-    scanLoop cfg st (n + 1) s = scanLoop cfg st n s' := by
-  simp [scanLoop, h, hr, hprog]
+    scanLoop cfg st (n + 1) s = scanLoop cfg st n s' :=
+  ScanB.scanLoop_progress cfg st n s s' h hr hprog
 
 theorem scanLoop_no_progress_raises (cfg : ScanCfg) (st : ScanState) (n : Nat) (s s' : Scan) (h : s.pos < s.input.size)
     (hr : runState cfg st s = .ok s') (hprog : s'.pos = s.pos ∧ s'.toks.size = s.toks.size) :
     scanLoop cfg st (n + 1) s =
-      .error (((s'.next).1).err ("Invalid Input " ++ ((s'.next).1).slice ((s'.next).1).start ((s'.next).1).input.size), (s'.next).1) := by
-  simp [scanLoop, h, hr, hprog]
+      .error (((s'.next).1).err ("Invalid Input " ++ ((s'.next).1).slice ((s'.next).1).start ((s'.next).1).input.size), (s'.next).1) :=
+  ScanB.scanLoop_no_progress_raises cfg st n s s' h hr hprog
+
+/-- the loop would *not* terminate for a negated run whose candidates lack the `"\0"` sentinel: the
+    model exhibits Python's non-termination (this is why `lex_opcode` spells the set `"\n\0"`) -/
+example : (({ input := "ab".toList.toArray } : Scan).acceptRun ['\n'] true).toOption = none := by decide
+
+/-- **C15 (scanner): every input terminates.**  For every scanner configuration (mnemonic / keyword
+    tables), both lexing states (`lex_initial` for sources, `lex_expression` for `-D` values and
+    `eval_expression_str`), every file index and every text, `Scanner.scan` returns its tokens or raises a
+    `ScannerException`: the model never answers `outOfFuel`, i.e. no loop of `scanner.py` /
+    `scanner_states.py` runs forever and the outer loop calls a state function at most `len(input)` times. -/
+theorem scan_terminates (cfg : ScanCfg) (st : ScanState) (file : Nat) (input : List Char) :
+    (scan cfg st file input).error ≠ some .outOfFuel :=
+  ScanT.scan_total cfg st file input
+
+/-- every state function either raises a real exception or returns a later state of the same input, and a
+    return with `pos` unchanged has emitted nothing (so the no-progress guard fires only when nothing happened) -/
+theorem state_call_progress (cfg : ScanCfg) (st : ScanState) (s s' : Scan) (h : runState cfg st s = .ok s') :
+    s'.input = s.input ∧ s.pos ≤ s'.pos ∧ (s'.pos = s.pos → s'.toks.size = s.toks.size) := by
+  have hp := ScanT.prog_runState cfg st s
+  rw [h] at hp
+  exact ⟨hp.1.input, hp.1.pos, hp.2⟩
+
+theorem state_call_no_fuel (cfg : ScanCfg) (st : ScanState) (s s' : Scan) (e : Err)
+    (h : runState cfg st s = .error (e, s')) : e ≠ .outOfFuel := by
+  have hp := ScanT.prog_runState cfg st s
+  rw [h] at hp
+  exact hp
+
+/-- non-vacuity: inputs that used to hang (`/*` before 6bef315, `1 $ 2` before ab4c2d0) now raise -/
+example : (scan ⟨["lda"], [], []⟩ .initial 0 "/* never closed".toList).error = some (.scan "Unterminated Comment" 0 0) := by
+  decide +kernel
+example : ((scan ⟨[], [], []⟩ .expression 0 "1 $ 2".toList).error.map Err.tag) = some "ScannerException" := by
+  decide +kernel
+
 
 /-- code generation is total for every nesting budget: with budget 0 it stops with `RecursionError` -/
 theorem gen_budget_exhausted (env : Env) (a : Ast) (st : GenState) : (gen env 0 a).run st = .error .recursion := rfl
